@@ -343,18 +343,28 @@ func C07Neg(w *sim.World, in *Info, invs []*Invalidation) (vs []V) {
 		if inv.Exch >= ex.ID || in.Mb.Exch >= inv.Exch {
 			continue
 		}
-		// "stored earlier": a background reply that was still in flight when the
-		// unsafe request was made arrived - and was stored - after it; the
-		// statement is about what had been stored before
+		// A background reply that was requested before the unsafe request and
+		// arrived after it still carries pre-invalidation content: the cache
+		// drops it (its entry is gone, or a response requested later is stored).
+		// Only a virtual-time tie is not judged: another response for the URI
+		// requested after the invalidation at the very instant the background
+		// request had started - "requested later" cannot be told then.
 		if in.Mb.Background {
-			if invEx := w.Exchange(inv.Exch); invEx != nil {
-				mbEx := w.Exchange(in.Mb.Exch)
-				if mbEx == nil {
+			tie := false
+			for _, e := range w.Exchanges {
+				if e.ID <= inv.Exch || e.ID >= ex.ID {
 					continue
 				}
-				if done, _, _ := mbEx.Finished(in.Mb); !done || in.Mb.Exit.After(invEx.TCall) {
-					continue
+				for _, c2 := range e.Calls() {
+					if c2 != in.Mb && !c2.Background && c2.Enter.Equal(in.Mb.Enter) {
+						if u2, err := url.Parse(c2.URL); err == nil && oracle.CompareURI(u2, cur) == oracle.Equivalent {
+							tie = true
+						}
+					}
 				}
+			}
+			if tie {
+				continue
 			}
 		}
 		// was the body's entry refreshed (200) after the invalidation? Mb is the body message, so no.
